@@ -1,7 +1,7 @@
 /* std::vector<T> storage model {data,size} and the <algorithm> pieces xtl uses on it (DESIGN.md 3.3).
    The model functions are ordinary C with loop contracts; they are INLINED into the function under proof and their
    loops are discharged there (nothing here is assumed).  Ghost conventions:
-     XV_GB     (macro, unit-defined, default xv_g): the ghost ELEMENT index used by whole-vector operations
+     XV_GB_<S> (macro per element type S, default XV_GB, default of that xv_g): the ghost ELEMENT index used by whole-vector operations
      XV_FILL_OFF (macro, unit-defined, default 0): container index at which a filled range starts
    heap blocks get a symbolic size so that the verifier keeps them as unbounded arrays. */
 #ifndef XV_VEC_H
@@ -28,8 +28,8 @@ static inline void xv_fill_n_##S(T* first, unsigned long n, T val) { \
     /* frame: exactly the first n elements may change (elements outside the range are not havocked) */ \
     __CPROVER_assigns(xv_i, __CPROVER_object_upto(first, n * sizeof(T))) \
     __CPROVER_loop_invariant(xv_i <= n) \
-    /* ghost element: index XV_GB of the container, the range starts at container index XV_FILL_OFF */ \
-    __CPROVER_loop_invariant((XV_GB >= XV_FILL_OFF && XV_GB - XV_FILL_OFF < xv_i) ==> first[XV_GB - XV_FILL_OFF] == val) \
+    /* ghost element: index XV_GB_##S of the container, the range starts at container index XV_FILL_OFF */ \
+    __CPROVER_loop_invariant((XV_GB_##S >= XV_FILL_OFF && XV_GB_##S - XV_FILL_OFF < xv_i) ==> first[XV_GB_##S - XV_FILL_OFF] == val) \
     /* last element of the range */ \
     __CPROVER_loop_invariant((xv_i == n && n > 0) ==> first[n - 1] == val) \
     __CPROVER_decreases(n - xv_i) \
@@ -40,7 +40,7 @@ static inline void xv_vec_##S##_ctor_n(xv_vec_##S* v, unsigned long n, T val) { 
   for (unsigned long xv_i = 0; xv_i < n; ++xv_i) \
     __CPROVER_assigns(xv_i, __CPROVER_object_whole(nd)) \
     __CPROVER_loop_invariant(xv_i <= n) \
-    __CPROVER_loop_invariant(XV_GB < xv_i ==> nd[XV_GB] == val) \
+    __CPROVER_loop_invariant(XV_GB_##S < xv_i ==> nd[XV_GB_##S] == val) \
     __CPROVER_loop_invariant((xv_i == n && n > 0) ==> nd[n - 1] == val) \
     __CPROVER_decreases(n - xv_i) \
   { nd[xv_i] = val; } \
@@ -52,7 +52,7 @@ static inline void xv_vec_##S##_ctor_range(xv_vec_##S* v, const T* first, const 
   for (unsigned long xv_i = 0; xv_i < n; ++xv_i) \
     __CPROVER_assigns(xv_i, __CPROVER_object_whole(nd)) \
     __CPROVER_loop_invariant(xv_i <= n) \
-    __CPROVER_loop_invariant(XV_GB < xv_i ==> nd[XV_GB] == first[XV_GB]) \
+    __CPROVER_loop_invariant(XV_GB_##S < xv_i ==> nd[XV_GB_##S] == first[XV_GB_##S]) \
     __CPROVER_loop_invariant((xv_i == n && n > 0) ==> nd[n - 1] == first[n - 1]) \
     __CPROVER_decreases(n - xv_i) \
   { nd[xv_i] = first[xv_i]; } \
@@ -64,7 +64,7 @@ static inline void xv_vec_##S##_resize(xv_vec_##S* v, unsigned long n, T val) { 
   for (unsigned long xv_i = 0; xv_i < n; ++xv_i) \
     __CPROVER_assigns(xv_i, __CPROVER_object_whole(nd)) \
     __CPROVER_loop_invariant(xv_i <= n) \
-    __CPROVER_loop_invariant(XV_GB < xv_i ==> nd[XV_GB] == (XV_GB < m ? od[XV_GB] : val)) \
+    __CPROVER_loop_invariant(XV_GB_##S < xv_i ==> nd[XV_GB_##S] == (XV_GB_##S < m ? od[XV_GB_##S] : val)) \
     __CPROVER_loop_invariant((xv_i == n && n > 0) ==> nd[n - 1] == (n - 1 < m ? od[n - 1] : val)) \
     __CPROVER_decreases(n - xv_i) \
   { nd[xv_i] = xv_i < m ? od[xv_i] : val; } \
@@ -74,5 +74,26 @@ static inline void xv_vec_##S##_clear(xv_vec_##S* v) { v->size = 0; } \
 static T xv_vec_##S##_dummy; \
 static inline T* xv_vec_##S##_at(xv_vec_##S* v, unsigned long i) { \
   if (i >= v->size) { xv_exc = XV_EXC_out_of_range; return &xv_vec_##S##_dummy; } return &v->data[i]; } \
-static inline void xv_vec_##S##_swap(xv_vec_##S* a, xv_vec_##S* b) { xv_vec_##S t = *a; *a = *b; *b = t; }
+static inline void xv_vec_##S##_swap(xv_vec_##S* a, xv_vec_##S* b) { xv_vec_##S t = *a; *a = *b; *b = t; } \
+/* std::equal(first1, last1, first2) on pointer iterators: reads [first2, first2 + (last1 - first1)) - a shorter second range fails a pointer obligation */ \
+static inline _Bool xv_equal_##S(const T* f1, const T* l1, const T* f2) { \
+  unsigned long n = (unsigned long)(l1 - f1); \
+  for (unsigned long xv_i = 0; xv_i < n; ++xv_i) \
+    __CPROVER_assigns(xv_i) \
+    __CPROVER_loop_invariant(xv_i <= n) \
+    __CPROVER_loop_invariant(XV_GB_##S < xv_i ==> f1[XV_GB_##S] == f2[XV_GB_##S]) \
+    __CPROVER_decreases(n - xv_i) \
+  { if (f1[xv_i] != f2[xv_i]) { xv_k = xv_i; return 0; } } \
+  return 1; } \
+/* a == b (std::equal over equal sizes); a differing position is published in the ghost xv_k */ \
+static inline _Bool xv_vec_##S##_eq(const xv_vec_##S* a, const xv_vec_##S* b) { \
+  if (a->size != b->size) return 0; \
+  unsigned long n = a->size; \
+  for (unsigned long xv_i = 0; xv_i < n; ++xv_i) \
+    __CPROVER_assigns(xv_i) \
+    __CPROVER_loop_invariant(xv_i <= n) \
+    __CPROVER_loop_invariant(XV_GB_##S < xv_i ==> a->data[XV_GB_##S] == b->data[XV_GB_##S]) \
+    __CPROVER_decreases(n - xv_i) \
+  { if (a->data[xv_i] != b->data[xv_i]) { xv_k = xv_i; return 0; } } \
+  return 1; }
 #endif
